@@ -418,6 +418,10 @@ func cyclicInputs() []corpusMsg {
 			add(fmt.Sprintf("field %s.%s #%d", f.cls, f.fld, i), cat([]byte{'C'}, str(f.cls), []byte{0x91}, str(f.fld), []byte{0x60}, b))
 		}
 	}
+	// as the value of a field the Go type does not have (it is skipped - and possibly logged)
+	for i, b := range selfList(1) {
+		add(fmt.Sprintf("unknown field of Inner #%d", i), cat([]byte{'C'}, str("Inner"), []byte{0x92}, str("zzUnknown"), str("a"), []byte{0x60}, b, []byte{0x91}))
+	}
 	// as an element of a typed list of ints / strings
 	for i, b := range selfList(1) {
 		add(fmt.Sprintf("element of [int #%d", i), cat([]byte{0x71}, str("[int"), b))
